@@ -782,7 +782,10 @@ func (g *gen) ts(d *meta.Data) int64 {
 	switch r.Intn(12) {
 	case 0:
 		return []int64{0, -1, 1, math.MaxInt64, math.MaxInt64 - 1, math.MaxInt64 - 2, math.MinInt64, math.MinInt64 + 1, math.MinInt64 + 2,
-			-int64(7 * 24 * time.Hour), int64(time.Hour) - 1, -int64(30 * time.Minute), -int64(time.Hour), -int64(24*time.Hour) + 1}[r.Intn(14)]
+			-int64(7 * 24 * time.Hour), int64(time.Hour) - 1, -int64(30 * time.Minute), -int64(time.Hour), -int64(24*time.Hour) + 1,
+			// around the first representable instant: a group whose truncated start lies before MinInt64 is clamped to it
+			math.MinInt64 + 3, math.MinInt64 + int64(r.Intn(3600))*int64(time.Second), math.MinInt64 + int64(r.Intn(7*24))*int64(time.Hour) + int64(r.Intn(2)),
+			math.MinInt64 + int64(time.Hour), math.MinInt64 + int64(24*time.Hour) - 1}[r.Intn(19)]
 	case 1, 2, 3:
 		// at or next to a boundary of an existing group
 		var bs []int64
